@@ -1,21 +1,25 @@
 """Model / C tie for the memory models (properties C03 and C12).
 
 The same op scripts run on the extracted models (ocaml/drv_mem.ml over coq/Mem/*.v) and on the
-white-box C harness harness/mem_wb.c (static list functions of vnaproperty.c, the parameter-slot
-allocator, vnacal_new_add_mapped_matrix_m without a port map) under ASan/UBSan with the allocation
-interposer.  After every op the outcome class (Done / errno class) and the number of live blocks of
-the object are compared.  For C12 every op additionally runs with request number k+1 failing.
+white-box C harness harness/mem_wb.c (static list / map functions of vnaproperty.c, the static hash
+functions of vnacal_new_parameter.c, the parameter-slot allocator, vnacal_new_add_mapped_matrix_m
+without a port map) under ASan/UBSan with the allocation interposer.  After every op the outcome
+class (Done / errno class) and the number of live blocks of the object are compared; for the two
+hash tables (coq/Mem/HashTab.v) also allocation, count, the keys of every chain in link order and
+the insertion-order list.  For C12 every op additionally runs with request number k+1 failing.
 """
 import os
 
 import vplib
 import mem_gen
+import prop_lib
 
 C03_VFILES = ["Mem/Alloc.v", "Mem/AllocProofs.v", "Mem/PropList.v", "Mem/Owned.v", "Mem/PropListProofs.v",
               "Mem/ParamSlots.v", "Mem/ParamProofs.v", "Mem/DataAlloc.v", "Mem/DataProofs.v", "Mem/AddArrays.v", "Mem/AddArraysProofs.v",
-              "Properties_C03.v"]
+              "Mem/HashTab.v", "Mem/HashTabProofs.v", "Properties_C03.v"]
 C12_VFILES = ["Mem/Alloc.v", "Mem/AllocProofs.v", "Mem/PropList.v", "Mem/Owned.v", "Mem/PropListProofs.v",
-              "Mem/ParamSlots.v", "Mem/ParamProofs.v", "Mem/DataAlloc.v", "Mem/DataProofs.v", "Properties_C12.v"]
+              "Mem/ParamSlots.v", "Mem/ParamProofs.v", "Mem/DataAlloc.v", "Mem/DataProofs.v",
+              "Mem/HashTab.v", "Mem/HashTabProofs.v", "Properties_C12.v"]
 
 MODELLED = [
     "vnaproperty.c: list_check_allocation, list_alloc, list_subtree, list_insert, list_append, list_delete, scalar_alloc, "
@@ -26,8 +30,134 @@ MODELLED = [
     "vnadata_free, for an object whose z0 mode is fixed (coq/Mem/DataAlloc.v)",
     "vnacal_new_add_common.c: declared lengths of m_cell_map, s_cell_map, port_connected, m_row_given, m_column_given, "
     "s_row_given, s_column_given against the loop bounds, calls without port map (coq/Mem/AddArrays.v)",
+    "vnacal_new_parameter.c: hash_expand, hash_lookup, hash_insert, _vnacal_new_init_parameter_hash, "
+    "_vnacal_new_free_parameter_hash, the look-up / malloc / insert sequence of _vnacal_new_get_parameter for a scalar "
+    "parameter (coq/Mem/HashTab.v)",
+    "vnaproperty.c: map_compare_keys (as the rank of (crc32c, name)), map_find_anchor, map_expand, map_subtree, map_delete, "
+    "map_alloc, the calloc/fill of vnaproperty_vkeys, vnaproperty_free of a map (coq/Mem/HashTab.v)",
 ]
-MODELLED_C12 = MODELLED[:3]
+MODELLED_C12 = MODELLED[:3] + MODELLED[4:]
+
+HASH_PARAMS = 150         # scalar parameters created for the parameter-hash scripts (indices 3 .. 152)
+
+
+def _hash_keys(rng):
+    """parameter indices that collide modulo 8, 16, 32 and 64, enough of them (> 32) to grow 8 -> 16 -> 32 -> 64"""
+    c, d = rng.sample(range(8), 2)
+    keys = [c, c + 8, c + 16, c + 24, c + 32, c + 64, c + 72, c + 96, c + 128, d, d + 16, d + 32, d + 64, d + 128, d + 8]
+    pool = [x for x in range(0, HASH_PARAMS + 3) if x not in keys]
+    keys += rng.sample(pool, 22)
+    absent = [x for x in (c + 40, c + 48, c + 136, d + 24, d + 96) if x not in keys] + rng.sample([x for x in pool if x not in keys], 3)
+    return keys, absent
+
+
+def gen_hash_script(rng, faults, mode):
+    """one parameter hash: insert (get) in ascending / descending / shuffled order, look-ups (find) of
+    present and absent colliding indices, repeated gets, negative indices.
+    faults: mode 0 = every insert first with its malloc failing (k = 0), then with the realloc of a due
+    hash_expand failing (k = 1); mode 1 = malloc failing then a clean retry; mode 2 = random k; mode 3 = the
+    initial table allocation fails"""
+    keys, absent = _hash_keys(rng)
+    order = ["asc", "desc", "shuffle"][mode % 3] if not faults else rng.choice(["asc", "desc", "shuffle"])
+    ins = sorted(keys) if order == "asc" else sorted(keys, reverse=True) if order == "desc" else rng.sample(keys, len(keys))
+    ops = ["%d H new %d" % (0 if (faults and mode == 3) else -1, HASH_PARAMS)]
+    done = []
+    for i, p in enumerate(ins):
+        if faults and mode == 0:
+            ops += ["0 H get %d" % p, "1 H get %d" % p]
+        elif faults and mode == 1:
+            ops += ["0 H get %d" % p, "-1 H get %d" % p]
+        elif faults:
+            k = rng.choice([-1, -1, 0, 1, 2])
+            ops.append("%d H get %d" % (k, p))
+            if k == 0:
+                ops.append("%d H get %d" % (rng.choice([-1, 1]), p))
+        else:
+            ops.append("-1 H get %d" % p)
+        done.append(p)
+        if i % 4 == 3:
+            q = rng.choice(done)
+            ops.append("%d H find %d" % (rng.choice([-1, 0]) if faults else -1, q))
+            ops.append("-1 H find %d" % rng.choice(absent))
+            ops.append("%d H get %d" % (rng.choice([-1, 0, 1]) if faults else -1, rng.choice(done)))
+    for p in keys + absent:
+        ops.append("-1 H find %d" % p)
+    ops += ["-1 H find -1", "-1 H get -1", "-1 H get -7", "-1 H free"]
+    return ops
+
+
+def _map_names(rng, full_pairs):
+    names = []
+    for mod, g, n in ((8, 1, 3), (16, 1, 3), (32, 1, 3), (11, 1, 4), (33, 1, 4), (99, 2, 6)):
+        for grp in prop_lib.colliding_keys(rng, mod, groups=g, per_group=n):
+            names += grp
+    for a, b in full_pairs:
+        names += [a, b]
+    while len(set(names)) < 72:
+        names.append(prop_lib._rand_key(rng, rng.randint(1, 5)))
+    names = list(dict.fromkeys(names))
+    absent = [k for grp in prop_lib.colliding_keys(rng, 99, groups=1, per_group=4) for k in grp if k not in names]
+    return names, absent
+
+
+def gen_map_script(rng, faults, mode, full_pairs=()):
+    """one vnaproperty map driven through map_subtree / map_delete directly: 70+ keys (11 -> 33 -> 99 buckets;
+    other sizes when an expansion failed), CRC-32C collisions modulo 8/16/32/11/33/99 and identical 32-bit
+    CRCs, ascending / descending / shuffled insertion, delete then reinsert, look-ups of absent keys.
+    faults: for set, request 1 is the realloc when an expansion is due, else the element malloc; k in 0..2"""
+    names, absent = _map_names(rng, full_pairs)
+    every = names + absent
+    ranked = sorted(every, key=lambda k: (prop_lib.crc32c(k), k))
+    rank = dict((k, i) for i, k in enumerate(ranked))
+
+    def arg(k):
+        return "%d %d %s" % (rank[k], prop_lib.crc32c(k), k.hex())
+    order = ["asc", "desc", "shuffle"][mode % 3] if not faults else rng.choice(["asc", "desc", "shuffle"])
+    ins = [k for k in ranked if k in names]
+    ins = ins if order == "asc" else ins[::-1] if order == "desc" else rng.sample(names, len(names))
+    ops = ["%d M new" % (0 if (faults and mode == 3) else -1)]
+    present = []
+
+    def fk(choices):
+        return rng.choice(choices) if faults else -1
+    for i, k in enumerate(ins):
+        if faults and mode == 0:
+            ops += ["0 M set " + arg(k), "1 M set " + arg(k), "2 M set " + arg(k), "-1 M set " + arg(k)]
+        elif faults and mode == 1:
+            ops += ["%d M set %s" % (rng.choice([0, 1]), arg(k)), "-1 M set " + arg(k)]
+        else:
+            kk = fk([-1, -1, 0, 1, 2])
+            ops.append("%d M set %s" % (kk, arg(k)))
+            if kk >= 0:
+                ops.append("-1 M set " + arg(k))
+        present.append(k)
+        if i % 5 == 4:
+            ops.append("%d M get %s" % (fk([-1, 0]), arg(rng.choice(present))))
+            ops.append("%d M get %s" % (fk([-1, 0]), arg(rng.choice(absent))))
+            ops.append("%d M set %s" % (fk([-1, 0, 1]), arg(rng.choice(present))))
+        if i % 11 == 10:
+            d = rng.choice(present)
+            ops.append("%d M del %s" % (fk([-1, 0]), arg(d)))
+            present.remove(d)
+            ops.append("-1 M del " + arg(d))
+            if rng.random() < 0.7:
+                ops.append("%d M set %s" % (fk([-1, 0, 1, 2]), arg(d)))
+                ops.append("-1 M set " + arg(d))
+                present.append(d)
+        if i % 17 == 16:
+            ops.append("-1 M keys")
+    ops.append("-1 M keys")
+    for k in every:
+        ops.append("-1 M get " + arg(k))
+    for d in rng.sample(present, len(present) // 2):
+        ops.append("%d M del %s" % (fk([-1, 0]), arg(d)))
+    for k in absent:
+        ops.append("-1 M del " + arg(k))
+    ops.append("-1 M keys")
+    for k in every:
+        ops.append("-1 M get " + arg(k))
+    ops.append("-1 M free")
+    return ops
 
 T_TYPES = [0, 2, 4]      # T8, TE10, T16
 U_TYPES = [1, 3, 5]      # U8, UE10, U16
@@ -106,6 +236,10 @@ WITNESSES = {
     "add_arrays_d14_refuted": ["-1 A 1 2 1 2 1 2 2"],
     "add_arrays_d50_refuted": ["-1 A 0 2 2 2 2 0 0"],
     "add_arrays_d48_refuted": ["-1 A 0 2 3 3 3 3 3"],
+    # hash_insert pushing on the chain head: key 0 would be hidden behind key 8
+    "phash_head_insert_refuted": ["-1 H new 20", "-1 H get 0", "-1 H get 8", "-1 H find 0", "-1 H get 0", "-1 H free"],
+    # hash_expand pushing rehashed nodes on the chain head: after the growth to 16 buckets key 3 would be hidden behind 19
+    "phash_rehash_head_refuted": ["-1 H new 20"] + ["-1 H get %d" % p for p in (3, 19, 4, 5, 6, 7, 9, 10)] + ["-1 H find 3", "-1 H get 3", "-1 H free"],
 }
 
 
@@ -139,7 +273,7 @@ def compare(ctx, exe, drv, ops):
 def run_tie(ctx, exe_unused, prop):
     broken = []
     try:
-        exe = ctx.build_harness("mem_wb", san=True, wrap=True, exclude=("vnaproperty.c",))
+        exe = ctx.build_harness("mem_wb", san=True, wrap=True, exclude=("vnaproperty.c", "vnacal_new_parameter.c"))
         drv = ctx.ocaml_driver("drv_mem")
     except vplib.BuildError as e:
         ctx.obligation("tie:mem:build", False, str(e)[:300])
@@ -154,6 +288,13 @@ def run_tie(ctx, exe_unused, prop):
         scripts.append(("tie/%d" % i, gen_tie_script(ctx.rng, 40 if quick else 120, faults, ["L", "P", "D", "D1"][i % 4])))
     if not faults:
         scripts.append(("tie/add", gen_add_cases(ctx.rng, 120 if quick else 1500)))
+    # the two hash tables: bucket-for-bucket comparison
+    full_pairs = prop_lib.full_collisions(ctx.rng, pairs=2)
+    ctx.extra["crc32c_full_collisions_in_tie"] = [[a.decode(), b.decode()] for a, b in full_pairs]
+    nhash = (4 if quick else 24)
+    for i in range(nhash):
+        scripts.append(("tie/hash/%d" % i, gen_hash_script(ctx.rng, faults, i % 4)))
+        scripts.append(("tie/map/%d" % i, gen_map_script(ctx.rng, faults, i % 4, full_pairs)))
     for label, ops in scripts:
         d = compare(ctx, exe, drv, ops)
         nsteps += len(ops)
